@@ -69,6 +69,7 @@ type PathResult struct {
 	pfMemo         map[string]*Term
 	MapOrder       bool
 	GlobalStores   map[string]bool
+	Conflicts      map[string]bool
 	Candidates     []*Candidate
 	AllocLimit     int
 	Steps          int
@@ -87,6 +88,13 @@ func (p *PathResult) assertRec(id string) *AssertCount {
 		p.Asserts[id] = r
 	}
 	return r
+}
+
+func (p *PathResult) noteConflict(what string) {
+	if p.Conflicts == nil {
+		p.Conflicts = map[string]bool{}
+	}
+	p.Conflicts[what] = true
 }
 
 func (p *PathResult) noteGlobalStore(where string) {
@@ -305,6 +313,7 @@ func (e *Engine) runPath(run *HarnessRun, item workItem) *PathResult {
 	e.maxSteps = run.MaxSteps
 	e.stack = e.stack[:0]
 	e.sp = 0
+	e.cellSeq, e.goPhase, e.goBarrier = 0, 0, 0
 	p := &PathResult{Status: "ok"}
 	e.path = p
 
